@@ -119,6 +119,10 @@ func (s *JavaRefactorListener) EnterLambdaParameters(ctx *LambdaParametersContex
 }
 
 func (s *JavaRefactorListener) EnterMethodCall(ctx *MethodCallContext) {
+	// explicit constructor calls, this(...) and super(...), have no identifier
+	if ctx.Identifier() == nil {
+		return
+	}
 	text := ctx.Identifier().GetText()
 	startLine := ctx.GetStart().GetLine()
 	stopLine := ctx.GetStop().GetLine()
